@@ -396,7 +396,7 @@ func genMatcher(r *rand.Rand, depth int) []string {
 	}
 	if depth == 0 && r.Intn(12) == 0 {
 		// And(pv sub, Or(Hosts({sub}.never.example), any)): a Hosts member with a domain parameter named like the
-		// parameter an earlier member captured rejects (known finding F28)
+		// parameter an earlier member captured rejects (F28, repaired)
 		return []string{"and", "2", "pv", "sub", "2", "v1", "v2", "or", "2", "hosts", "1", "{sub}.never.example", "any"}
 	}
 	switch x := r.Intn(10); {
